@@ -87,6 +87,7 @@ func (zp *ZoneParser) generate(l lex) (RR, bool) {
 	}
 	zp.sub = NewZoneParser(r, zp.origin, zp.file)
 	zp.sub.includeDepth, zp.sub.includeAllowed = zp.includeDepth, zp.includeAllowed
+	zp.sub.SetIncludeFS(zp.fsys) // an $INCLUDE line produced by $GENERATE is looked up like any other
 	zp.sub.generateDisallowed = true
 	// Generated records without a TTL get the TTL an ordinary record would get at
 	// this point of the file ($TTL, last stated TTL or the parser's default).
